@@ -36,6 +36,13 @@ def gen_cases(ctx):
     for kind in ("P", "RX", "RY", "RZ"):
         for x in PARAM_SWEEP:
             mk(2, [{"g": "op", "kind": kind, "params": [float2bits(x)], "ts": [0], "cs": rng.choice([[], [1]])}])
+    # ... and for the gates exported through the built-in U: ry_phase / ry_phase_dag over the sweep in either parameter, a matrix of NaNs
+    for kind in ("RYP", "RYPdag"):
+        for x in PARAM_SWEEP:
+            for pos in (0, 1):
+                ps = [float2bits(0.7), float2bits(-1.1)]; ps[pos] = float2bits(x)
+                mk(2, [{"g": "op", "kind": kind, "params": ps, "ts": [0], "cs": rng.choice([[], [1]])}])
+    mk(2, [{"g": "op", "kind": "U2", "params": [float2bits(float("nan"))] * 8, "ts": [0], "cs": []}])
     # measurement groups: every basis, all / some / one qubit, several groups
     for b in ("C", "X", "Y", "U"):
         for qs in ([], [0], [2, 0], [0, 1, 2]):
@@ -61,7 +68,7 @@ def brief(c):
             [bits2float(p) for p in g.get("params", [])]] for g in c["gates"][:8]]}
 
 def finite_params(c):
-    return all(math.isfinite(bits2float(p)) for g in c["gates"] for p in g.get("params", []) if g["g"] == "op" and g["kind"] in ("P", "RX", "RY", "RZ"))
+    return all(math.isfinite(bits2float(p)) for g in c["gates"] for p in g.get("params", []) if g["g"] == "op" and g["kind"] in ("P", "RX", "RY", "RZ", "RYP", "RYPdag", "U2"))
 
 def run_cases(ctx, cases):
     results = run_harness(cases, nproc=8)
